@@ -38,6 +38,7 @@ structure AllAbsent (n : Nat) : Prop where
   parentSearch : ∀ l nm ts, OnRoute name0 nm → (ts = [] ∨ OnRoute name0 ts) → SpecA s0 (parentSearch n cfg l nm ts)
   dLoadEntry : ∀ nm, OnRoute name0 nm → SpecA s0 (dLoadEntry n cfg nm)
   dFind : ∀ nm, OnRoute name0 nm → SpecA s0 (dFind n cfg nm)
+  dMembers : ∀ nm, OnRoute name0 nm → SpecA s0 (dMembers n cfg nm)
   dLoop : ∀ mods nm, OnRoute name0 nm → SpecA s0 (dLoop n cfg mods nm)
 
 variable {cfg name0 s0}
@@ -183,11 +184,15 @@ theorem astep_fbLoadEntry {n : Nat} (ih : AllAbsent cfg name0 s0 n) (l : Lid) (n
   intro s hs
   simp only [fbLoadEntry, wp_bind]
   have h1 : wp (match l with
-      | .m _ => fbLoadEntry n cfg .g nm
+      | .m _ => if cfg.flat then pure (sysLoad nm) else fbLoadEntry n cfg .g nm
       | _ => pure (sysLoad nm))
       (fun r s' => InvA s0 s' ∧ ∀ d, r ≠ some (some d)) (InvA s0) s := by
     cases l with
-    | m mod => exact ih.fbLoadEntry .g nm hr s hs
+    | m mod =>
+      simp only []
+      by_cases hf : cfg.flat = true
+      · rw [if_pos hf]; exact ⟨hs, fun d h => by rw [ha.noStatic nm hr] at h; cases h⟩
+      · rw [if_neg hf]; exact ih.fbLoadEntry .g nm hr s hs
     | g => exact ⟨hs, fun d h => by rw [ha.noStatic nm hr] at h; cases h⟩
     | d => exact ⟨hs, fun d h => by rw [ha.noStatic nm hr] at h; cases h⟩
   refine wp_mono h1 ?_ (fun _ h => h)
@@ -260,13 +265,28 @@ theorem astep_dFind {n : Nat} (ih : AllAbsent cfg name0 s0 n) (nm : Name) (hr : 
     | some ps =>
       simp only []
       cases hh : ps.head? with
-      | none => exact ih.dLoop cfg.mods nm hr s hs
+      | none => exact ih.dMembers nm hr s hs
       | some h =>
         simp only []
         by_cases hm : cfg.mods.contains h = true
         · rw [if_pos hm]; exact ih.fbLoadEntry (.m h) nm hr s hs
-        · rw [if_neg hm]; exact ih.dLoop cfg.mods nm hr s hs
-  · rw [if_neg hc]; exact ih.dLoop cfg.mods nm hr s hs
+        · rw [if_neg hm]; exact ih.dMembers nm hr s hs
+  · rw [if_neg hc]; exact ih.dMembers nm hr s hs
+
+theorem astep_dMembers {n : Nat} (ih : AllAbsent cfg name0 s0 n) (nm : Name) (hr : OnRoute name0 nm) :
+    SpecA s0 (dMembers (n+1) cfg nm) := by
+  intro s hs
+  simp only [dMembers]
+  by_cases hf : cfg.flat = true
+  · rw [if_pos hf]
+    simp only [wp_bind]
+    refine wp_mono (ih.fbLoadEntry .g nm hr s hs) ?_ (fun _ h => h)
+    intro e s1 ⟨hs1, he⟩
+    match e, he with
+    | some (some d), he => exact absurd rfl (he d)
+    | some none, _ => exact ih.dLoop cfg.mods nm hr s1 hs1
+    | none, _ => exact ih.dLoop cfg.mods nm hr s1 hs1
+  · rw [if_neg hf]; exact ih.dLoop cfg.mods nm hr s hs
 
 theorem astep_dLoadEntry {n : Nat} (ih : AllAbsent cfg name0 s0 n) (nm : Name) (hr : OnRoute name0 nm) :
     SpecA s0 (dLoadEntry (n+1) cfg nm) := by
@@ -299,7 +319,8 @@ theorem astep_dLoadEntry {n : Nat} (ih : AllAbsent cfg name0 s0 n) (nm : Name) (
 theorem allAbsent : ∀ n, AllAbsent cfg name0 s0 n
   | 0 => by
     constructor <;> intros <;> intro s hs <;>
-      simp only [loadEntry, fbLoadEntry, find, findTail, parentSearch, dLoadEntry, dFind, dLoop, wp_raise] <;> exact hs
+      simp only [loadEntry, fbLoadEntry, find, findTail, parentSearch, dLoadEntry, dFind, dMembers, dLoop, wp_raise] <;>
+        exact hs
   | n+1 =>
     have ih := allAbsent n
     { loadEntry := astep_loadEntry ha h0 ih
@@ -309,6 +330,7 @@ theorem allAbsent : ∀ n, AllAbsent cfg name0 s0 n
       parentSearch := astep_parentSearch ha h0 ih
       dLoadEntry := astep_dLoadEntry ha h0 ih
       dFind := astep_dFind ha h0 ih
+      dMembers := astep_dMembers ha h0 ih
       dLoop := astep_dLoop ha h0 ih }
 
 theorem absent_load (hne : name0 ≠ []) (fuel : Nat) (s : St) (hs : InvA s0 s) :
